@@ -303,15 +303,18 @@ def kernel_sequence(k1: int, k2: int) -> bool:
     # the REAL kernel, natively, twice in a row (solver-chosen arguments incl. same tempo with another
     # resolution, tempos whose thousandths are not exactly representable): each result within the K1
     # bound of the exact value whatever was computed before
-    a, b = H.pick(_KCASES, k1), H.pick(_KCASES, k2)
-    with H.untraced():
-        ok = True
-        for (d, bpm, r) in (a, b):
-            n = round(bpm * 1000)
-            exact = Fraction(60000 * d, n * r)
-            got = Fraction(TK.seconds_from_ticks_at_bpm(d, bpm, r))
-            ok = ok and abs(got - exact) <= exact / 2**50
-        return done(ok)
+    i1, i2 = H.pick(list(range(len(_KCASES))), k1), H.pick(list(range(len(_KCASES))), k2)
+    return done(H.isolated("harness.h_extra", "_kernel_sequence", i1, i2))     # each history in a fresh interpreter
+
+
+def _kernel_sequence(i1, i2):
+    ok = True
+    for (d, bpm, r) in (_KCASES[i1], _KCASES[i2]):
+        n = round(bpm * 1000)
+        exact = Fraction(60000 * d, n * r)
+        got = Fraction(TK.seconds_from_ticks_at_bpm(d, bpm, r))
+        ok = ok and abs(got - exact) <= exact / 2**50
+    return ok
 
 
 def bpm_event_dataflow_uf(prev_tick: int, tick: int, prev_us: int, prev_idx: int, u: int) -> bool:
@@ -340,10 +343,19 @@ def metadata_twice(p0: bool, p1: bool, p2: bool, q0: bool, q1: bool, q2: bool, f
     """
     post: _
     """
+    ps = [H.pick([False, True], int(x)) for x in (p0, p1, p2)]
+    qs = [H.pick([False, True], int(x)) for x in (q0, q1, q2)]
+    ff = H.pick([False, True], int(fail_first))
+    return done(H.isolated("harness.h_extra", "_metadata_twice", ps, qs, ff))     # each history in a fresh interpreter
+
+
+def _metadata_twice(ps, qs, fail_first):
+    p0, p1, p2 = ps
+    q0, q1, q2 = qs
     p3 = p4 = q3 = q4 = False
     # two [Song] sections parsed one after the other: the second one's fields come from its own lines
     # and the documented defaults only (also when the first parse failed half-way)
-    pad = _pad()
+    pad = "  "
     first = [pad + "Resolution = 192"] + [pad + _MD_OPT[i][0].strip() for i, p in enumerate([p0, p1, p2, p3, p4]) if p]
     if fail_first:
         first.append(pad + "Player2 = guitar")
@@ -358,7 +370,7 @@ def metadata_twice(p0: bool, p1: bool, p2: bool, q0: bool, q1: bool, q2: bool, f
     for i, q in enumerate([q0, q1, q2, q3, q4]):
         name, val = _MD_OPT[i][1], _MD_OPT[i][2]
         ok = ok and getattr(md, name) == (val if q else _MD_DEF[name])
-    return done(ok)
+    return ok
 
 
 _P2VALS = ["bass", "rhythm", "bast", "guitar", "Bass", "RHYTHM", "lead x", "b", "7"]
